@@ -107,7 +107,7 @@ def gen_coqproject():
         if fn.endswith(".files"):
             for line in open(os.path.join(d, fn)):
                 line = line.strip()
-                if line and not line.startswith("#") and line not in files:
+                if line and not line.startswith("#") and line not in files and os.path.exists(os.path.join(COQ, line)):
                     files.append(line)
     if os.path.exists(os.path.join(COQ, "Generated", "Facts.v")) and "Generated/Facts.v" not in files:
         pass
